@@ -12,7 +12,8 @@
      services/echo.go, ntp.go, dns.go behind server.TimeoutConn (the type tests fail)
    The model follows the code after the fix: commits 1603afd (ssh loop stops on a decoder
    error), 4aa01bd (vnc pusher recovers), 9cc3ebb (tftp mutex), 4b4eb8c (dns decodes),
-   cb1bd7f (snmp length pre-check), 59015c2 (ldap bounded envelope reader).
+   cb1bd7f (snmp length pre-check), 59015c2 (ldap bounded envelope reader),
+   dae22fe (DummyUDPConn.Read ends with io.EOF).
    Everything else (net/http, x/crypto/ssh, encoding/xml/json, miekg/dns, the rest of
    the two asn1 libraries, the Go runtime) is not modelled: see props/C01.json. *)
 From HT Require Import Common.Bytes C17.Model.
@@ -198,7 +199,9 @@ Definition tftp_parsed (dg : bytes) : bool :=
   let k := tftp_kind dg in
   let body := skipn 2 dg in
   if (k =? 2)%N then has_zero body && has_zero (after_zero body)
-  else true.      (* DATA: bufio.Read on a drained datagram returns (0, nil): never an error *)
+  else if (k =? 3)%N then (2 <? zlen dg)   (* the block number read fails with io.EOF on a bare opcode;
+                                               an empty data block is tolerated (dae22fe + tftp.go) *)
+  else true.
 
 (* ------------------------------------------------------------------ *)
 (* 4. vnc                                                               *)
@@ -524,11 +527,14 @@ Definition ldap_first (stream : bytes) : option res :=
   end.
 
 (* ------------------------------------------------------------------ *)
-(* 7. echo / ntp / dns behind server.TimeoutConn                        *)
-(* the wrapper hides *DummyUDPConn from echo's type test; DummyUDPConn.Read returns (0, nil)
-   once drained, so io.Copy never ends *)
+(* 7. echo / ntp over udp behind server.TimeoutConn                      *)
+(* the wrapper hides *DummyUDPConn from echo's type test, so both services run
+   io.Copy over the datagram connection.  Since dae22fe DummyUDPConn.Read reports io.EOF
+   once the datagram is consumed: the copy ends after one round (before, Read returned
+   (0, nil) for ever and the handler spun: RSpin). *)
+Definition udp_read_after_drain_is_eof : bool := true.
+
 Definition thin_udp (svc : N) : option res :=
-  if (svc =? 6)%N then Some RSpin          (* echo: io.Copy(conn, conn) *)
-  else if (svc =? 16)%N then Some RSpin    (* ntp: io.Copy(os.Stdout, conn) *)
-                                           (* dns decodes the query since 4b4eb8c (miekg/dns): not modelled *)
-  else None.
+  if ((svc =? 6) || (svc =? 16))%N then           (* echo: io.Copy(conn, conn); ntp: io.Copy(os.Stdout, conn) *)
+    Some (if udp_read_after_drain_is_eof then ROk else RSpin)
+  else None.                                      (* dns decodes the query since 4b4eb8c (miekg/dns): not modelled *)
